@@ -316,8 +316,9 @@ def all_levels_scheduled(f):
         if cond is None or cond['k'] != 'bin' or cond['op'] != '<' or unwrap(cond['x']).get('d') != iv:
             return False, 'the loop over the levels at %s is not `lev < <number of levels>`' % f.where(L)
         bound = unwrap(cond['y'])
-        nlev_defs = [n for n in f.nodes.values() if n['k'] == 'bin' and n['op'] == '=' and bound['k'] == 'ref' and unwrap(n['x'])['k'] == 'ref' and unwrap(n['x'])['d'] == bound['d']
-                     and any(x['k'] == 'call' and x.get('f') == 'std::max' for x in walk(n['y']))]
+        import idioms
+        nlev_defs = [n for n, V, E in idioms.extremum_updates(f, f.body, 'max') if bound['k'] == 'ref' and unwrap(V)['k'] == 'ref' and unwrap(V)['d'] == bound['d']
+                     and idioms._plus_one(idioms._resolve_local(f, E)) is not None]
         if bound['k'] != 'ref' or not nlev_defs:
             return False, 'the bound `%s` of the loop over the levels at %s is not the level count (running maximum of level + 1)' % (show(bound), f.where(L))
     return True, ''
@@ -333,64 +334,51 @@ def row_loop(f):
                 yield n
 
 
+def _mentions_level(f, e):
+    import idioms
+    return any(x['k'] == 'idx' and show(x).startswith('level[') for x in idioms.deep_nodes(f, e))
+
+
 def gs_schedule(f, forward):
-    """Gauss-Seidel row i reads x[c] for EVERY c != i.  The forward schedule is correct iff for every such c either
-    level[i] > level[c] is enforced (c swept before i) or level[c] > level[i] (c swept after i).
-    Columns already swept (c < i forward) raise level[i]; columns not yet swept (c > i) must raise level[c]."""
-    raises_own, raises_other = False, False
-    bad_own = None
+    """Gauss-Seidel row i reads x[c] for EVERY c != i.  The schedule is correct iff for every such c either level[i] > level[c] is
+    enforced (c swept before i) or level[c] > level[i] (c swept after i).  Columns already swept raise the running maximum l of the
+    row (l = max(l, level[c] + 1), in any spelling - idioms.extremum_update); columns not yet swept are pushed: level[c] =
+    max(level[c], l + 1) with the FINAL l of the row."""
+    import idioms
+    from effects import path_between
+    owns, others, plain = [], [], []
+    lvar = None
     for loop in row_loop(f):
+        ups = idioms.extremum_updates(f, loop['b'], 'max')
+        covered = {x['i'] for n, _, _ in ups for x in walk(n)}
+        for n, V, E in ups:
+            v = unwrap(V)
+            if v['k'] == 'ref' and _mentions_level(f, E) and idioms._plus_one(idioms._resolve_local(f, E)) is not None:
+                owns.append(n)
+                lvar = v['d']
+            elif v['k'] == 'idx' and show(v).startswith('level[') and idioms._plus_one(idioms._resolve_local(f, E)) is not None:
+                others.append((n, E))
         for n in walk(loop['b']):
-            if n['k'] != 'bin' or n['op'] != '=':
-                continue
-            lhs, rhs = show(n['x']), show(n['y'])
-            if 'level[' not in rhs and 'level[' not in lhs:
-                continue
-            y = unwrap(n['y'])
-            is_max = y['k'] == 'call' and y.get('f') == 'std::max' and len(y.get('a', [])) == 2
-            args = [show(a) for a in y['a']] if is_max else []
-            if not lhs.startswith('level['):
-                # own level l derived from a neighbour: must be the running maximum  l = max(l, level[c] + 1)
-                if 'level[' in rhs:
-                    if is_max and lhs in args and any('level[' in a and '+ 1' in a for a in args):
-                        raises_own = True
-                    else:
-                        bad_own = 'the level of the row is assigned `%s` (not the running maximum over all swept neighbours)' % rhs
-            else:
-                # level[c] = max(level[c], l + 1): a not yet swept neighbour is pushed to a later level
-                if is_max and lhs in args and any('+ 1' in a for a in args if a != lhs):
-                    raises_other = True
-    if bad_own:
-        return False, bad_own
-    if raises_own and raises_other:
-        # the level that pushes the not-yet-swept neighbours is the FINAL level of the row: no update of the running maximum l is
-        # reachable from a `level[c] = max(level[c], l + 1)` before l is re-initialised for the next row
-        from effects import path_between
-        owns, others, lvar = [], [], None
-        for loop in row_loop(f):
-            for n in walk(loop['b']):
-                if n['k'] != 'bin' or n['op'] != '=':
-                    continue
-                lhs, rhs = show(n['x']), show(n['y'])
-                if lhs.startswith('level[') and 'std::max' in (unwrap(n['y']).get('f') or '') and unwrap(n['x'])['k'] == 'idx':
-                    if any(a_ != lhs for a_ in [show(t) for t in unwrap(n['y']).get('a', [])]):
-                        others.append(n)
-                elif 'level[' in rhs and unwrap(n['x'])['k'] == 'ref':
-                    owns.append(n)
-                    lvar = unwrap(n['x'])['d']
-        reinit = [n for n in f.nodes.values() if n['k'] == 'decl' and any(v['d'] == lvar for v in n['v'])] if lvar is not None else []
-        reinit += [n for n in f.nodes.values() if n['k'] == 'bin' and n['op'] == '=' and unwrap(n['x'])['k'] == 'ref' and unwrap(n['x'])['d'] == lvar and n not in owns]
+            if n['k'] == 'bin' and n['op'] == '=' and n['i'] not in covered and unwrap(n['x'])['k'] == 'ref' and _mentions_level(f, n['y']):
+                plain.append(n)
+    if plain:
+        return False, 'the level of the row is assigned `%s` at %s (not the running maximum over all swept neighbours)' % (show(plain[0]['y'])[:50], f.where(plain[0]))
+    if owns and others:
+        reinit = [n for n in f.nodes.values() if n['k'] == 'decl' and any(v['d'] == lvar for v in n['v'])]
+        inner = {x['i'] for w in owns for x in walk(w)}
+        reinit += [n for n in f.nodes.values() if n['k'] == 'bin' and n['op'] == '=' and unwrap(n['x'])['k'] == 'ref' and unwrap(n['x'])['d'] == lvar and n['i'] not in inner]
         if f.cfg is not None and reinit:
-            for o in others:
-                # only pushes that use the row's running level
-                if not any(x['k'] == 'ref' and x['d'] == lvar for x in walk(o['y'])):
+            for o, E in others:
+                if not any(x['k'] == 'ref' and x['d'] == lvar for x in walk(E)):
                     continue
                 for w in owns:
-                    if path_between(f, o, w, avoid=reinit):
+                    wn = next((x for x in walk(w) if x['k'] == 'bin' and x['op'] == '='), w)
+                    on = next((x for x in walk(o) if x['k'] == 'bin' and x['op'] == '='), o)
+                    if path_between(f, on, wn, avoid=reinit):
                         return False, ('`%s` at %s pushes a neighbour with a level of the row that is not final: `%s` at %s can still raise it afterwards '
-                                       '(the neighbour may end up on the same or an earlier level than the row that reads it)' % (show(o)[:50], f.where(o), show(w)[:40], f.where(w)))
+                                       '(the neighbour may end up on the same or an earlier level than the row that reads it)' % (show(on)[:50], f.where(on), show(wn)[:40], f.where(wn)))
         return True, ''
-    if raises_own and not raises_other:
+    if owns and not others:
         return False, ('the schedule raises level[i] only from the columns already swept (c %s i); the sweep also reads x[c] of the rows not yet swept, '
                        'whose level is never forced above level[i]: with a structurally non-symmetric row (a(i,c) != 0, a(c,i) == 0) rows i and c share a level '
                        'on different threads' % ('<' if forward else '>'))
@@ -399,70 +387,91 @@ def gs_schedule(f, forward):
 
 def ilu_schedule(f, lower):
     """sptr_solve row i reads x[c] exactly for the columns stored in its triangular factor row: EVERY stored column raises level[i], i.e.
-    the running maximum l = max(l, level[col[j]] + 1) is taken in a loop whose index j runs over the whole row [ptr[i], ptr[i+1])
+    the running maximum l = max(l, level[col] + 1) (any spelling) is taken in a loop that runs over the whole row [ptr[i], ptr[i+1])
     without a filter"""
+    import idioms
     for loop in row_loop(f):
-        for n in walk(loop['b']):
-            if n['k'] == 'bin' and n['op'] == '=' and 'level[' in show(n['y']) and unwrap(n['x'])['k'] == 'ref':
-                y = unwrap(n['y'])
-                lhs = show(n['x'])
-                is_max = y['k'] == 'call' and y.get('f') == 'std::max' and lhs in [show(a) for a in y.get('a', [])]
-                if not is_max:
-                    return False, 'the level of the row is assigned `%s` at %s (not the running maximum over all stored columns)' % (show(n['y'])[:50], f.where(n))
-                # the enclosing loop over the row entries
-                inner = None
-                for a in f.ancestors(n):
-                    if a is loop:
-                        break
-                    if a['k'] in ('if', 'switch', 'cond'):
-                        return False, 'the level dependency at %s is taken conditionally: some stored columns do not raise the level of the row' % f.where(n)
-                    if a['k'] in ('for', 'rfor', 'while'):
-                        inner = a
-                        break
+        ups = [(n, V, E) for n, V, E in idioms.extremum_updates(f, loop['b'], 'max') if unwrap(V)['k'] == 'ref' and _mentions_level(f, E)]
+        covered = {x['i'] for n, _, _ in ups for x in walk(n)}
+        plain = [n for n in walk(loop['b']) if n['k'] == 'bin' and n['op'] == '=' and n['i'] not in covered and unwrap(n['x'])['k'] == 'ref' and _mentions_level(f, n['y'])
+                 and f.decl(unwrap(n['x'])['d']).get('k') == 'local' and not any(v['d'] == unwrap(n['x'])['d'] for d in walk(loop['b']) if d['k'] == 'decl' for v in d['v'])]
+        if plain:
+            return False, 'the level of the row is assigned `%s` at %s (not the running maximum over all stored columns)' % (show(plain[0]['y'])[:50], f.where(plain[0]))
+        for n, V, E in ups:
+            if idioms._plus_one(idioms._resolve_local(f, E)) is None:
+                return False, 'the level of the row is raised to `%s` at %s, not to the level of the neighbour plus one' % (show(E)[:50], f.where(n))
+            inner = None
+            for a in f.ancestors(n):
+                if a is loop:
+                    break
+                if a['k'] in ('if', 'switch', 'cond'):
+                    return False, 'the level dependency at %s is taken conditionally: some stored columns do not raise the level of the row' % f.where(n)
+                if a['k'] in ('for', 'rfor', 'while'):
+                    inner = a
+                    break
+            if inner is None:
+                inner = loop if _full_row_range(f, loop) else None
                 if inner is None:
-                    # the statement sits directly in the loop over the rows: is that loop itself the loop over the row entries?
-                    inner = loop if _full_row_range(loop) else None
-                    if inner is None:
-                        return False, ('the level of the row is raised at %s from a single stored column, not in a loop over the whole row: a row may share a level with a row '
-                                       'whose unknown it reads' % f.where(n))
-                if not _full_row_range(inner):
-                    return False, 'the loop at %s that derives the level does not run over the whole row [ptr[i], ptr[i+1])' % f.where(inner)
-                conts = [m for m in walk(inner['b']) if m['k'] in ('continue', 'break')]
-                if conts:
-                    return False, 'some stored columns are skipped when the level of the row is computed'
-                return True, ''
+                    return False, ('the level of the row is raised at %s from a single stored column, not in a loop over the whole row: a row may share a level with a row '
+                                   'whose unknown it reads' % f.where(n))
+            if not _full_row_range(f, inner):
+                return False, 'the loop at %s that derives the level does not run over the whole row [ptr[i], ptr[i+1])' % f.where(inner)
+            conts = [m for m in walk(inner['b']) if m['k'] in ('continue', 'break')]
+            if conts:
+                return False, 'some stored columns are skipped when the level of the row is computed'
+            return True, ''
     return False, 'no level dependency is derived from the row entries'
 
 
-def _full_row_range(L):
-    """for (j = X.ptr[i]; j < X.ptr[i+1]; ++j)  or a row iterator  for (a = row_begin(A, i); a; ++a)"""
-    if L['k'] != 'for' or L.get('init') is None or L.get('c') is None:
+def _row_bound(f, e):
+    """(base text, index text) of X.ptr[k] / X + P[k] (pointer walk), through single-definition locals"""
+    import idioms
+    e = unwrap(idioms._resolve_local(f, e))
+    if e is None:
+        return None
+    if e['k'] == 'idx' and 'ptr' in show(e['b']):
+        return show(e['b']), show(e['x']).replace(' ', '')
+    if e['k'] == 'bin' and e['op'] == '+':
+        y = unwrap(idioms._resolve_local(f, e['y']))
+        if y is not None and y['k'] == 'idx' and 'ptr' in show(y['b']):
+            return show(e['x']) + '+' + show(y['b']), show(y['x']).replace(' ', '')
+    return None
+
+
+def _full_row_range(f, L):
+    """for (j = X.ptr[i]; j < X.ptr[i+1]; ++j), a pointer walk  for (c = X.col + X.ptr[i]; c < X.col + X.ptr[i+1]; ++c)  (bounds possibly
+    held in single-definition locals), or a row iterator  for (a = row_begin(A, i); a; ++a)"""
+    if L['k'] != 'for' or L.get('c') is None:
         return False
-    init = [v for n in walk(L['init']) if n['k'] == 'decl' for v in n['v'] if v.get('init') is not None]
-    if not init:
-        return False
-    j = init[0]
-    ie = unwrap(j['init'])
+    init = [v for n in walk(L['init']) if n['k'] == 'decl' for v in n['v'] if v.get('init') is not None] if L.get('init') is not None else []
+    if init:
+        ie = unwrap(init[0]['init'])
+        if ie is not None and ie['k'] == 'call' and (ie.get('f') or '').endswith('row_begin'):
+            return True       # a row iterator visits every stored entry of the row
     c = unwrap(L['c'])
-    if ie is not None and ie['k'] == 'call' and (ie.get('f') or '').endswith('row_begin'):
-        return True       # a row iterator visits every stored entry of the row
-    if ie is None or ie['k'] != 'idx' or 'ptr' not in show(ie['b']):
+    if c is None or c['k'] != 'bin' or c['op'] != '<' or unwrap(c['x'])['k'] != 'ref':
         return False
-    if c is None or c['k'] != 'bin' or c['op'] != '<' or unwrap(c['x'])['k'] != 'ref' or unwrap(c['x'])['d'] != j['d']:
+    jd = unwrap(c['x'])['d']
+    lo = None
+    for v in init:
+        if v['d'] == jd:
+            lo = _row_bound(f, v['init'])
+    if lo is None:
+        # the cursor is a local initialised before the loop:  for (; c < c_end; ++c)
+        inits = [v['init'] for n in f.nodes.values() if n['k'] == 'decl' for v in n['v'] if v['d'] == jd and v.get('init') is not None]
+        if len(inits) == 1:
+            lo = _row_bound(f, inits[0])
+    hi_e = c['y']
+    for v in init:
+        if unwrap(hi_e)['k'] == 'ref' and v['d'] == unwrap(hi_e)['d']:
+            hi_e = v['init']
+    hi = _row_bound(f, hi_e)
+    if lo is None or hi is None or lo[0] != hi[0]:
         return False
-    hi = unwrap(c['y'])
-    if hi is not None and hi['k'] == 'ref':
-        # e = X.ptr[i+1] declared in the same init
-        for v in init:
-            if v['d'] == hi['d']:
-                hi = unwrap(v['init'])
-    if hi is None or hi['k'] != 'idx' or show(hi['b']) != show(ie['b']):
-        return False
-    lo_i, hi_i = show(ie['x']), show(hi['x'])
-    if hi_i.replace(' ', '') != (lo_i + '+1').replace(' ', ''):
+    if hi[1] != lo[1] + '+1':
         return False
     inc = unwrap(L.get('inc')) if L.get('inc') is not None else None
-    return inc is not None and inc['k'] == 'un' and inc['op'] == '++' and unwrap(inc['e'])['k'] == 'ref' and unwrap(inc['e'])['d'] == j['d']
+    return inc is not None and inc['k'] == 'un' and inc['op'] == '++' and unwrap(inc['e'])['k'] == 'ref' and unwrap(inc['e'])['d'] == jd
 
 
 def barrier_ok(f):
